@@ -6,6 +6,7 @@ import (
 	"fmt"
 	"github.com/basecomplextech/spec"
 	"io"
+	"strings"
 
 	"github.com/basecomplextech/baselibrary/alloc"
 	"github.com/basecomplextech/baselibrary/async"
@@ -66,6 +67,21 @@ var c11handshakes = []c11hs{
 		return append([]byte(ProtocolLine), vFrame4(vMsgBytes(vOpen(bin.Int128(0, 5), []byte("hx"), 1024)))...)
 	}, false, false, false},
 	{"first-frame-garbage", func() []byte { return append([]byte(ProtocolLine), vFrame4([]byte{0xff, 0xfe, 0x01, 0x50})...) }, false, false, false},
+	// near misses of the protocol line
+	{"line-crlf", func() []byte {
+		return append([]byte(ProtocolLine[:len(ProtocolLine)-1]+"\r\n"), vConnectReq([]pmpx.Version{10}, nil)...)
+	}, false, false, false},
+	{"line-trailing-space", func() []byte {
+		return append([]byte(ProtocolLine[:len(ProtocolLine)-1]+" \n"), vConnectReq([]pmpx.Version{10}, nil)...)
+	}, false, false, false},
+	{"line-leading-space", func() []byte { return append([]byte(" "+ProtocolLine), vConnectReq([]pmpx.Version{10}, nil)...) }, false, false, false},
+	{"line-lower-case", func() []byte {
+		return append([]byte(strings.ToLower(ProtocolLine)), vConnectReq([]pmpx.Version{10}, nil)...)
+	}, false, false, false},
+	{"line-empty-then-line", func() []byte { return append([]byte("\n"+ProtocolLine), vConnectReq([]pmpx.Version{10}, nil)...) }, false, false, false},
+	{"line-with-nul", func() []byte {
+		return append([]byte(ProtocolLine[:len(ProtocolLine)-1]+"\x00\n"), vConnectReq([]pmpx.Version{10}, nil)...)
+	}, false, false, false},
 	// a well-formed connect_request sub-message under another message code: still "anything else first"
 	{"request-under-code-open", func() []byte { return append([]byte(ProtocolLine), vConnectReqCode(pmpx.Code_ChannelOpen, true)...) }, false, false, false},
 	{"request-under-code-response", func() []byte {
